@@ -9,6 +9,7 @@
 From SV Require Import Lib.Base Gen.Consts.
 From SV Require Import Model.Seq32 Model.Assembler Model.TcpBuf Model.TcpTypes Model.Tcp Model.TcpNet.
 From SV Require Import Proofs.TcpSendBase Proofs.TcpSendInv.
+From SV Require Proofs.TcpLiveProofs.
 From SV Require Import Proofs.TcpNetBase.
 
 (* what a step hands to the wire or would have handed to it (a refused transmit token is included:
@@ -73,9 +74,12 @@ Definition tx_new (cx : ctx) (g : ghost) (s : socket) (ev : event) (g' : ghost) 
    | _ => False
    end).
 
+(* the MTU leaves room for a segment with every option and does not exceed an IP datagram *)
+Definition mtu_ok (cx : ctx) : Prop := 52 < cx_ip_mtu cx <= 65575.
+
 Definition c05_contract : Prop :=
   forall cx g s ev s' out tags,
-    inv g s -> ctx_ok cx ->
+    inv g s -> ctx_ok cx -> mtu_ok cx -> TcpLiveProofs.tcp_live_inv s ->
     match ev with EvSegment ip r => repr_ok r | _ => True end ->
     tcp_step cx s ev = Ok (s', out, tags) ->
     exists g', inv g' s' /\
